@@ -1,2 +1,3 @@
 pub mod refbin;
 pub mod reflz;
+pub mod reftex;
